@@ -11,8 +11,11 @@ Core Lean only.  Mirrored:
       has, in configuration order, then the enabled global remedies                            ↦ `chain`
   runner/plugin_runner.go runOnRequest: EVERY remedy of the chain is run (no short-circuit), the actions are
       prioritised: the first non-NoOp (early response) wins                                    ↦ `dispatchStep`
-  obtainModifiedEarlyResponse: the response-phase remedies (retry) see a COPY of the synthetic response; the early
-      response leaves with the status and body the throttling remedy gave it                   ↦ retry is transparent
+  obtainModifiedEarlyResponse: an early response is run through the response side of the chain as a synthetic
+      response; retry sees a COPY (the early response keeps its status and body) — but a caching remedy STORES it
+      and replays it to later requests of the (method, url) (finding F09g)                      ↦ `storeEarly`
+  request-side prioritisation (actions/request_action_prioritize.go): NoOp yields to anything, an early response
+      beats everything that comes later, Modify/GenerateRequest yield to a later early response ↦ first early wins
   The rate-limit state is keyed by the remedy NAME (`LimiterID`), not by the endpoint.
 
 Only literal URLs are used (URL-tree matching is C03/C13's subject).
@@ -21,7 +24,11 @@ namespace LunarVerif.C09
 
 inductive DKind where
   | throttle (r : Remedy)     -- `r.name` is ignored: the policy's name is used
-  | retry
+  | retry (attempts lo hi : Int)  -- response side only: header-only ModifyResponseAction when lo ≤ status ≤ hi
+  | other                     -- authentication (o_auth / api_key / basic), account orchestration: they change the
+                              -- forwarded request (Modify/GenerateRequestAction), never the verdict
+  | fixed (status : Int)      -- fixed_response: answers when the request carries `early-response: true`
+  | cache (maxrec : Nat)      -- caching (endpoint only): serves / stores a response per (method, url)
 deriving Repr
 
 /-- One configured policy (remedy): where it is attached, its name, whether it is enabled, what it is. -/
@@ -31,6 +38,31 @@ structure DPol where
   enabled : Bool
   kind    : DKind
 deriving Repr
+
+/-- what leaves the dispatcher, as far as C09 is concerned -/
+inductive DAns where
+  | pass
+  | early (status : Int) (body : String)
+  | err
+deriving DecidableEq, Repr
+
+def tooMany : String := "Too many requests"
+def goLunar : String := "{\"message\": \"GO Lunar\"}"
+
+def toDAns : Answer → DAns
+  | .noop => .pass
+  | .early s => .early s tooMany
+  | _ => .err
+
+/-- rate-limit state and the caching plugin's store ((method, url) ↦ status, body; entries never expire here:
+    the harness configures a TTL longer than any case) -/
+structure DState where
+  lim   : State Key := []
+  cache : List ((String × String) × (Int × String)) := []
+deriving Repr
+
+def cacheGet (c : List ((String × String) × (Int × String))) (k : String × String) : Option (Int × String) :=
+  (c.find? (fun e => e.1 == k)).map (·.2)
 
 /-- `lo.FindDuplicates` of the policy names is non-empty. -/
 def hasDuplicateNames (ps : List DPol) : Bool :=
@@ -44,7 +76,15 @@ def accepted (ps : List DPol) : Bool := !hasDuplicateNames ps
 def remedyOf (p : DPol) : Option Remedy :=
   match p.kind with
   | .throttle r => some { r with name := p.name, identityHash := true }
-  | .retry => none
+  | _ => none
+
+def isCache (p : DPol) : Bool := match p.kind with | .cache _ => true | _ => false
+
+/-- kinds that can never answer a request themselves -/
+def isTransparent (p : DPol) : Bool :=
+  match p.kind with
+  | .retry _ _ _ | .other => true
+  | _ => false
 
 def applies (p : DPol) (url method : String) : Bool :=
   p.enabled && (match p.ep with
@@ -56,21 +96,61 @@ def chain (ps : List DPol) (url method : String) : List DPol :=
   (ps.filter fun p => p.ep.isSome && applies p url method) ++
   (ps.filter fun p => p.ep.isNone && applies p url method)
 
-/-- `runOnRequest` over a chain: every throttling remedy takes its step; the first non-NoOp answer wins. -/
-def runChain (cap : CapFn) (hs : List (String × String)) (t : Nat) :
-    List DPol → State Key → Answer → State Key × Answer
-  | [], st, ans => (st, ans)
-  | p :: ps, st, ans =>
-    match remedyOf p with
-    | none => runChain cap hs t ps st ans
-    | some r =>
-      let (st', a) := pluginStep cap st r hs t
-      runChain cap hs t ps st' (if ans == .noop then a else ans)
+/-- One remedy's `OnRequest`. -/
+def stepPol (cap : CapFn) (url method : String) (hs : List (String × String)) (t : Nat)
+    (p : DPol) (s : DState) : DState × DAns :=
+  match p.kind with
+  | .throttle r =>
+    let (lim', a) := pluginStep cap s.lim { r with name := p.name, identityHash := true } hs t
+    ({ s with lim := lim' }, toDAns a)
+  | .fixed status => (s, if lookupHdr hs "early-response" == "true" then .early status goLunar else .pass)
+  | .cache _ =>
+    (s, match cacheGet s.cache (method, url) with
+        | some (st, b) => .early st b
+        | none => .pass)
+  | .retry _ _ _ | .other => (s, .pass)
+
+/-- `runOnRequest` over a chain: EVERY remedy takes its step; the first answer that is not a pass wins. -/
+def runChain (cap : CapFn) (url method : String) (hs : List (String × String)) (t : Nat) :
+    List DPol → DState → DAns → DState × DAns
+  | [], s, ans => (s, ans)
+  | p :: ps, s, ans =>
+    let (s', a) := stepPol cap url method hs t p s
+    runChain cap url method hs t ps s' (if ans == .pass then a else ans)
+
+/-- Response side of a chain on the synthetic response of an early response (`runOnResponse`): what the first
+    caching remedy that stores would store.  `seen` is the (status, body) the running response carries: a retry
+    remedy whose range covers the status (new sequence, attempts ≥ 1) answers with a header-only
+    `ModifyResponseAction`, and `EnsureResponseIsUpdated` then overwrites status and body of the running response
+    with that action's zero values — a caching remedy listed AFTER it stores status 0 and an empty body. -/
+def storeWalk : List DPol → (Int × String) → Option (Int × String)
+  | [], _ => none
+  | p :: ps, seen =>
+    match p.kind with
+    | .retry attempts lo hi =>
+      if decide (lo ≤ seen.1) && decide (seen.1 ≤ hi) && decide (1 ≤ attempts) then storeWalk ps (0, "")
+      else storeWalk ps seen
+    | .cache maxrec => if seen.2.utf8ByteSize ≤ maxrec then some seen else storeWalk ps seen
+    | _ => storeWalk ps seen
+
+/-- `obtainModifiedEarlyResponse`: the early response is run through the response side of the chain as a
+    synthetic response — a caching remedy STORES it unless the (method, url) is already stored. -/
+def storeEarly (c : List ((String × String) × (Int × String))) (ch : List DPol) (url method : String) :
+    DAns → List ((String × String) × (Int × String))
+  | .early st b =>
+    if (cacheGet c (method, url)).isNone then
+      match storeWalk ch (st, b) with
+      | some rec => c ++ [((method, url), rec)]
+      | none => c
+    else c
+  | _ => c
 
 /-- `runner.DispatchOnRequest` as far as the verdict, the rejection status and body are concerned. -/
-def dispatchStep (cap : CapFn) (st : State Key) (ps : List DPol) (url method : String)
-    (hs : List (String × String)) (t : Nat) : State Key × Answer :=
-  runChain cap hs t (chain ps url method) st .noop
+def dispatchStep (cap : CapFn) (s : DState) (ps : List DPol) (url method : String)
+    (hs : List (String × String)) (t : Nat) : DState × DAns :=
+  let ch := chain ps url method
+  let (s', a) := runChain cap url method hs t ch s .pass
+  ({ s' with cache := storeEarly s'.cache ch url method a }, a)
 
 /-- the throttling policies of a request's chain, with their position in the configuration -/
 def throttlesOf (ps : List DPol) (url method : String) : List (Nat × Remedy) :=
@@ -78,5 +158,10 @@ def throttlesOf (ps : List DPol) (url method : String) : List (Nat × Remedy) :=
   let pick (global : Bool) := idx.filterMap fun (i, p) =>
     if (p.ep.isNone == global) && applies p url method then (remedyOf p).map (fun r => (i, r)) else none
   pick false ++ pick true
+
+/-- Classifier used by the judge for a failing dispatcher-level group: a caching remedy is configured (finding
+    F09g: it stores and replays throttling rejections); else unexplained. -/
+def findingD (ps : List DPol) : Option String :=
+  if ps.any (fun p => p.enabled && isCache p) then some "F09g" else none
 
 end LunarVerif.C09
